@@ -24,3 +24,9 @@ import json,sys; d=json.load(open('/verif/$rp')); print('   what:', str(d.get('w
 fi
 rm -f /tmp/seed_demo_mut_$$.log /tmp/seed_demo_clean_$$.log
 mv /tmp/seed_check_$$.log /tmp/seed_check_last.log
+# restore the generated Lean files from the clean tree
+cd /verif && /venv/bin/python -c "
+import sys; sys.path.insert(0,'/verif')
+from pathlib import Path
+from translator import gen as T
+T.regenerate(Path('/repo'), Path('/verif/lean/NavisModel/Gen'))" >/dev/null 2>&1
